@@ -56,3 +56,29 @@ Theorem C03_aesni_block_is_fips197 : forall key k b,
   x_key_expand_aesni key = Some k -> x_encrypt_block_aesni k b = AES_encrypt key b.
 Proof. exact x_aesni_block_is_fips197. Qed.
 Print Assumptions C03_aesni_block_is_fips197.
+
+(* the two key-expansion chains of crypto_aes_aesni.c (MKRKEY128 / MKRKEY256 with the regenerated
+   rcon / shuffle immediates) = the FIPS-197 key schedule, for every 128- and 256-bit key *)
+Theorem C03_aesni_key_expand_128_is_fips197 : forall key, length key = 16%nat ->
+  firstn 11 (repo_key_expand_128_aesni sbox key) = round_keys (AES_KeyExpansion key).
+Proof. exact aesni_key_expand_128_is_fips197. Qed.
+Print Assumptions C03_aesni_key_expand_128_is_fips197.
+
+Theorem C03_aesni_key_expand_256_is_fips197 : forall key, length key = 32%nat ->
+  repo_key_expand_256_aesni sbox key = round_keys (AES_KeyExpansion key).
+Proof. exact aesni_key_expand_256_is_fips197. Qed.
+Print Assumptions C03_aesni_key_expand_256_is_fips197.
+
+(* end to end, AES-NI build: key schedule, block function, `buflen >= 16` routing and partial-block
+   carry-over as modelled from the C give SP 800-38A CTR over FIPS-197 AES for every partition into
+   calls - the value the portable build is specified (and, over the same block function, proved:
+   C03_ctr_any_config_same_bytes) to return *)
+Theorem C03_aesctr_aesni_is_ctr_of_fips197 : forall key k nonce any chunks,
+  x_key_expand_aesni key = Some k ->
+  st_wf any -> N.of_nat (length (concat chunks)) < two64 ->
+  exists s' outs,
+    stream_all (x_encrypt_block_aesni k) true (x_init2 nonce any) chunks = Ok (s', outs) /\
+    concat outs = ctr_spec (AES_encrypt key) nonce (concat chunks) /\
+    map (@length N) outs = map (@length N) chunks.
+Proof. exact aesctr_aesni_is_ctr_of_fips197. Qed.
+Print Assumptions C03_aesctr_aesni_is_ctr_of_fips197.
